@@ -133,6 +133,15 @@ func c08mkRR(name string, rr c08rr, n int) dns.RR {
 		return &dns.SOA{Hdr: h, Ns: "ns.test.", Mbox: "h.test.", Serial: uint32(n), Refresh: 1, Retry: 2, Expire: 3, Minttl: 4}
 	case dns.TypeCNAME:
 		return &dns.CNAME{Hdr: h, Target: "t.test."}
+	// every record struct of the proxy has its own header accessor: each kind must age
+	case dns.TypeNS:
+		return &dns.NS{Hdr: h, Ns: "ns.test."}
+	case dns.TypePTR:
+		return &dns.PTR{Hdr: h, Ptr: "p.test."}
+	case dns.TypeMX:
+		return &dns.MX{Hdr: h, Preference: uint16(n), Mx: "mx.test."}
+	case dns.TypeSRV:
+		return &dns.SRV{Hdr: h, Priority: 1, Weight: 2, Port: uint16(n), Target: "srv.test."}
 	case dns.TypeOPT:
 		o := &dns.OPT{Hdr: dns.RR_Header{Name: ".", Rrtype: dns.TypeOPT, Class: 1232, Ttl: rr.ttl}}
 		return o
@@ -663,11 +672,11 @@ func c08genSec(r *rand.Rand, sec int, allowOpt bool) string {
 		var ty int
 		switch sec {
 		case 0:
-			ty = []int{1, 1, 1, 28, 5, 16, 99}[r.Intn(7)]
+			ty = []int{1, 1, 1, 28, 5, 16, 99, 15, 33, 12}[r.Intn(10)]
 		case 1:
-			ty = []int{6, 6, 2 + 14, 99}[r.Intn(4)]
+			ty = []int{6, 6, 2 + 14, 99, 2}[r.Intn(5)]
 		default:
-			ty = []int{1, 28, 16, 41, 41}[r.Intn(5)]
+			ty = []int{1, 28, 16, 41, 41, 33}[r.Intn(6)]
 		}
 		if allowOpt && r.Intn(12) == 0 {
 			ty = 41
